@@ -486,3 +486,16 @@ func init() {
 		return nil
 	}
 }
+
+// encoding/json's ENCODER (json.Marshal and friends) is reflection-driven through and through
+// (type-indexed encoder caches, struct field tables): it stays outside the engine's reach.  Only the
+// decoder's interface{} path is executed.
+func init() {
+	for _, n := range []string{"encoding/json.Marshal", "encoding/json.MarshalIndent", "(*encoding/json.Encoder).Encode"} {
+		name := n
+		externals[name] = func(fr *frame, args []value) value {
+			fr.i.abort("unsupported", "callee outside allow-list: %s (reflection-driven encoder)", name)
+			return nil
+		}
+	}
+}
